@@ -11,6 +11,7 @@ struct Handle { unsigned char* p = nullptr; size_t size = 0; bool live = false; 
 bool inside_live_backend_block(const void* p, size_t n, uint32_t* serial) {
     uintptr_t a = (uintptr_t)p;
     uintptr_t base = g_arena[A_HEAP].base;
+    if (HugeBlock* hb = huge_find(p, true)) { if (hb->live && n <= hb->size && a - hb->addr <= hb->size - n) { if (serial) *serial = hb->serial; return true; } return false; }
     if (a < base || a - base >= g_arena[A_HEAP].size) return false;
     uint32_t off = (uint32_t)(a - base);
     for (auto& b : g.blocks) if (b.live && off >= b.off && n <= b.size && (size_t)(off - b.off) <= b.size - n) { if (serial) *serial = b.serial; return true; }
@@ -49,8 +50,18 @@ Verdict check_alloc(const Plan& plan, Stats& st) {
     // afterwards the entry value is something else, so that the demand is not met by accident
     auto entry_errno = [&](int opi, bool must_set_enomem) { static const int kErr[] = {0, ENOMEM, EINVAL, ENOMEM, ERANGE, 0, ENOMEM, EDOM}; int e = kErr[((plan.junk >> 9) + (unsigned)opi * 3u) & 7]; return (must_set_enomem && e == ENOMEM) ? EDOM : e; };
     auto fail = [&](int opi, const std::string& what) { g.cur->op = opi; violate(V_ALLOC_MODEL, what, false); };
-    auto fill = [&](Handle& x) { for (size_t i = 0; i < x.size; i++) x.p[i] = (unsigned char)(x.pat + (unsigned char)i); };
-    auto check_content = [&](const Handle& x, const unsigned char* p, size_t n) { for (size_t i = 0; i < n; i++) if (p[i] != (unsigned char)(x.pat + (unsigned char)i)) return false; return true; };
+    const size_t kHead = 2500000;   // blocks above this (the sparse multi-GiB ones) are patterned at head and tail only
+    auto fill = [&](Handle& x) {
+        size_t head = x.size < kHead ? x.size : kHead;
+        for (size_t i = 0; i < head; i++) x.p[i] = (unsigned char)(x.pat + (unsigned char)i);
+        if (x.size > kHead) for (size_t i = x.size - 256; i < x.size; i++) x.p[i] = (unsigned char)(x.pat + (unsigned char)i);
+    };
+    auto check_content = [&](const Handle& x, const unsigned char* p, size_t n) {
+        size_t head = n < kHead ? n : kHead;
+        for (size_t i = 0; i < head; i++) if (p[i] != (unsigned char)(x.pat + (unsigned char)i)) return false;
+        if (n > kHead && n == x.size) for (size_t i = n - 256; i < n; i++) if (p[i] != (unsigned char)(x.pat + (unsigned char)i)) return false;   // (the tail carries the pattern only at the size it was filled for)
+        return true;
+    };
     auto check_new_block = [&](int opi, Handle& x, const char* what) {
         uint32_t ser = 0;
         if (x.size && !inside_live_backend_block(x.p, x.size, &ser)) { fail(opi, std::string(what) + ": returned block of " + std::to_string(x.size) + " bytes does not lie wholly inside one live backend block (" + addr_name(x.p) + ")"); return false; }
@@ -104,7 +115,9 @@ Verdict check_alloc(const Plan& plan, Stats& st) {
             bool hdr_ovf = !ovf && total > (size_t)-1 - sizeof(size_t);
             errno = entry_errno(i, ovf);
             call_begin(i, -1, mid, fp);
+            g.allow_huge = !cal && op.opt == 1;   // a multi-GiB block the backend really grants (sparse mapping): sizes above 2^32 in the header
             LIBCALL_RUN({ res = (unsigned char*)(cal ? mem->calloc(mem, n1, n2) : mem->malloc(mem, n1)); }, ok);
+            g.allow_huge = false;
             int fired = g.cur->fired, reqs = g.cur->req_count; call_end();
             if (!ok) break;
             if (fired) { any_fault = true; st.fault("backend_fail", (unsigned long long)fired); }
@@ -119,7 +132,7 @@ Verdict check_alloc(const Plan& plan, Stats& st) {
                 st.probe("size_overflow_refused");
                 break;
             }
-            if (total > unsatisfiable) {
+            if (total > unsatisfiable && !(!cal && op.opt == 1 && total <= (6ull << 30))) {
                 // no backend can deliver this much; whether the manager refuses it itself (header arithmetic, any header layout) or lets
                 // the backend refuse it is its own business: NULL is the only acceptable answer
                 if (res) fail(i, std::string(cal ? "calloc" : "malloc") + "(" + std::to_string(total) + ") returned non-NULL for a size no backend can deliver");
@@ -137,6 +150,10 @@ Verdict check_alloc(const Plan& plan, Stats& st) {
         case OP_A_REALLOC: case OP_A_REALLOCARRAY: {
             bool arr = op.kind == OP_A_REALLOCARRAY;
             size_t n1 = (size_t)op.n1, n2 = (size_t)op.n2;
+            if (x && x->live && huge_find(x->p, true) && x->size > kHead) {   // a multi-GiB block is only ever shrunk (growing it would copy gigabytes)
+                if (arr) { n1 = n1 % 1000 + 1; n2 = n2 % 2000 + 1; } else n1 = n1 % 2000000 + 1;
+                st.probe("sparse_block_shrunk");
+            }
             size_t total = arr ? n1 * n2 : n1;
             bool ovf = arr ? (n1 && total / n1 != n2) : false;
             unsigned char* old = (x && x->live) ? x->p : nullptr;
